@@ -12,8 +12,14 @@ Oracle at the instant `blocking_flush` returns true (C07): every record whose `e
 returned before the flush was requested (global stamps) and whose formatting succeeded is a
 complete record inside the *synced* bytes of the fake filesystem — unless the metrics show that a
 batch ended in a permanent failure (failed without a retry, panicked) or an overflow truncation.
-Record grammar (C10): every separator-delimited piece of every file is a complete record, empty,
-or a truncated record at a logged cut. `--prop C10` only changes the property label of the report.
+Record grammar (C10): every separator-delimited piece of every file is, byte for byte, the record of
+one successfully formatted event, empty, or a truncated record at a logged cut. A third of the
+scenarios use the default JSON writer, the rest the harness's own writer; in three quarters of the
+scenarios every 2nd / 3rd / 7th event of every thread FAILS TO FORMAT PART-WAY (custom writer: bytes
+already pushed into the `FileBuf`, even a whole record + separator, then `Err`; JSON writer: a
+template hole or property whose `Display` / `Debug` writes some text and then returns `fmt::Error`,
+or fails at once) and is followed by ordinary events of the same thread: such an event must be
+counted by `event_format_failed` and none of its bytes may reach a file. `--prop C10` only changes the property label of the report.
 */
 
 #[path = "../shared/fakefs.rs"]
@@ -43,13 +49,16 @@ struct Scn {
     reuse: bool,
     max_size: usize,
     second_emitter: bool,
+    /// default JSON writer (`emit_file::set`) instead of the harness's own writer
+    json: bool,
     rounds: Vec<(u64, u64, bool)>, // (events, clock advance ms, flush requested while the worker is parked inside write)
     faults: Vec<Fault>,
 }
 
 fn gen(seed: u64, idx: u64) -> Scn {
     let mut g = Rng::stream(seed, &[7, 70, idx]);
-    let sep: &'static [u8] = if g.bool() { b"\n" } else { b"\x1e" };
+    let json = idx % 3 == 2;
+    let sep: &'static [u8] = if json || g.bool() { b"\n" } else { b"\x1e" };
     let n_rounds = 2 + g.usize(8);
     let rounds = (0..n_rounds)
         .map(|_| {
@@ -76,7 +85,9 @@ fn gen(seed: u64, idx: u64) -> Scn {
         idx,
         sep,
         append_sep: g.bool(),
-        fail_mod: if g.chance(1, 4) { 7 } else { 0 },
+        // every fail_mod-th event of every thread fails to format part-way and is followed by ordinary ones
+        fail_mod: *g.pick(&[0u64, 2, 3, 7]),
+        json,
         reuse: g.bool(),
         max_size: *g.pick(&[200usize, 5_000, 1 << 30]),
         second_emitter: g.chance(1, 3),
@@ -88,8 +99,17 @@ fn gen(seed: u64, idx: u64) -> Scn {
 impl Scn {
     fn to_json(&self) -> Json {
         json!({"scenario": self.idx, "separator": self.sep, "writer_appends_separator": self.append_sep, "format_fails_every": self.fail_mod,
-               "reuse_files": self.reuse, "max_file_size_bytes": self.max_size, "second_emitter_thread": self.second_emitter,
+               "reuse_files": self.reuse, "max_file_size_bytes": self.max_size, "second_emitter_thread": self.second_emitter, "default_json_writer": self.json,
                "rounds_events_clockms_gated": self.rounds, "faults": self.faults.iter().map(|f| json!([f.at, f.kind.name()])).collect::<Vec<_>>()})
+    }
+}
+
+/// 0 = ordinary event; otherwise the way the formatting of event `vid` fails (see `filee2e::FAIL_KINDS`).
+fn fail_kind(fail_mod: u64, vid: u64) -> u64 {
+    if fail_mod > 0 && vid % fail_mod == fail_mod - 1 {
+        1 + (vid / fail_mod) % FAIL_KINDS
+    } else {
+        0
     }
 }
 
@@ -103,19 +123,19 @@ struct Snap {
 }
 
 /// Request a flush and capture the filesystem at (or slightly after) the instant it returned.
-fn flush_and_snapshot(files: &emit_file::FileSet, fs: &FakeFs, sep: u8, worker_may_be_writing: bool) -> Snap {
+fn flush_and_snapshot(files: &emit_file::FileSet, fs: &FakeFs, sep: u8, worker_may_be_writing: bool, codec: Codec) -> Snap {
     let requested = stamp();
     let ok = files.blocking_flush(Duration::from_secs(60));
     let st = fs.lock();
-    let synced = synced_vids(&st, sep);
-    let bad = bad_pieces(&st, sep, worker_may_be_writing);
+    let synced = synced_vids_c(&st, sep, codec);
+    let bad = bad_pieces_c(&st, sep, worker_may_be_writing, codec);
     let mut anywhere = std::collections::HashSet::new();
     for node in st.files.values() {
         let c = node.content();
         let mut b = 0;
         for (i, ch) in c.iter().enumerate() {
             if *ch == sep {
-                if let Some(v) = parse_body(&c[b..i]) {
+                if let Some(v) = codec.parse(&c[b..i]) {
                     anywhere.insert(v);
                 }
                 b = i + 1;
@@ -135,7 +155,13 @@ fn run(r: &mut Report, seed: u64, idx: u64) {
     let clock = FakeClock::new(1_709_251_100_000_000_000 + idx * 1_000_000);
     let ids = IdRng::new(idx + 3, IdMode::Random);
     let fmt_fail = Arc::new(AtomicU64::new(0));
-    let files = match emit_file::set_with_writer("logs/e2e.log", writer(s.append_sep, s.sep, s.fail_mod, fmt_fail.clone()), s.sep)
+    let codec = if s.json { Codec::Json } else { Codec::Custom };
+    let builder = if s.json {
+        emit_file::set("logs/e2e.log")
+    } else {
+        emit_file::set_with_writer("logs/e2e.log", writer(s.append_sep, s.sep, 0, fmt_fail.clone()), s.sep)
+    };
+    let files = match builder
         .roll_by_minute()
         .max_files(100_000)
         .max_file_size_bytes(s.max_size)
@@ -153,6 +179,8 @@ fn run(r: &mut Report, seed: u64, idx: u64) {
     // (vid, stamp taken after emit returned)
     let emitted: Mutex<Vec<(u64, u64)>> = Mutex::new(Vec::new());
     let stop = AtomicBool::new(false);
+    // events whose formatting was scripted to fail
+    let failing = AtomicU64::new(0);
     let mut next_vid = 0u64;
     let mut flushes_true = 0u64;
     let mut gated_flushes = 0u64;
@@ -160,13 +188,19 @@ fn run(r: &mut Report, seed: u64, idx: u64) {
     let mut excused = 0u64;
     std::thread::scope(|scope| {
         if s.second_emitter {
-            let (files, emitted, stop) = (&files, &emitted, &stop);
+            let (files, emitted, stop, failing) = (&files, &emitted, &stop, &failing);
+            let fail_mod = s.fail_mod;
             scope.spawn(move || {
                 let mut vid = 1_000_000u64;
                 while !stop.load(Ordering::SeqCst) {
-                    emit_record(files, vid, (vid % 40) as usize);
+                    let fk = fail_kind(fail_mod, vid);
+                    emit_e2e(files, codec, vid, (vid % 40) as usize, fk);
                     let st = stamp();
-                    emitted.lock().unwrap().push((vid, st));
+                    if fk == 0 {
+                        emitted.lock().unwrap().push((vid, st));
+                    } else {
+                        failing.fetch_add(1, Ordering::SeqCst);
+                    }
                     vid += 1;
                     // slow enough that the 10 000-slot channel does not overflow (that would excuse everything)
                     if vid % 8 == 0 {
@@ -186,9 +220,14 @@ fn run(r: &mut Report, seed: u64, idx: u64) {
             }
             for _ in 0..*n {
                 let len = ((next_vid * 37) % 211) as usize;
-                emit_record(&files, next_vid, len);
+                let fk = fail_kind(s.fail_mod, next_vid);
+                emit_e2e(&files, codec, next_vid, len, fk);
                 let st = stamp();
-                emitted.lock().unwrap().push((next_vid, st));
+                if fk == 0 {
+                    emitted.lock().unwrap().push((next_vid, st));
+                } else {
+                    failing.fetch_add(1, Ordering::SeqCst);
+                }
                 next_vid += 1;
             }
             let snap = if *gated {
@@ -203,12 +242,12 @@ fn run(r: &mut Report, seed: u64, idx: u64) {
                 gated_flushes += (fs.gate_waiting() > 0) as u64;
                 let (files, fs2) = (&files, &fs);
                 let (sep, second) = (s.sep[0], s.second_emitter);
-                let h = scope.spawn(move || flush_and_snapshot(files, fs2, sep, second));
+                let h = scope.spawn(move || flush_and_snapshot(files, fs2, sep, second, codec));
                 std::thread::sleep(Duration::from_millis(2));
                 fs.open_gate();
                 h.join().expect("flusher")
             } else {
-                flush_and_snapshot(&files, &fs, s.sep[0], s.second_emitter)
+                flush_and_snapshot(&files, &fs, s.sep[0], s.second_emitter, codec)
             };
             if !snap.ok {
                 r.inconclusive(format!("scenario {}: blocking_flush timed out after 60 s", idx));
@@ -223,7 +262,7 @@ fn run(r: &mut Report, seed: u64, idx: u64) {
                 .lock()
                 .unwrap()
                 .iter()
-                .filter(|(v, st)| *st < requested && !(s.fail_mod > 0 && v % s.fail_mod == s.fail_mod - 1))
+                .filter(|(_, st)| *st < requested)
                 .map(|(v, _)| *v)
                 .collect();
             let mut missing: Vec<u64> = required.iter().copied().filter(|v| !synced.contains(v)).collect();
@@ -247,9 +286,21 @@ fn run(r: &mut Report, seed: u64, idx: u64) {
                 }
             }
             if let Some((path, a, b, text)) = bad.first() {
+                // what kind of bad piece is it (signature from the shape, not from the data)
+                let heads = if s.json { text.matches("{\"mdl\"").count() } else { 0 };
+                let sig = if s.json && heads <= 1 && text.contains("\"bad\":") {
+                    // one event, cut short inside a property value that failed to format, yet written
+                    "C10:e2e:partially-formatted-event-written:default-json-writer:property-value-fails".to_string()
+                } else {
+                    format!(
+                        "C10:e2e:record-mangled:{}{}",
+                        if s.json { "default-json-writer".to_string() } else { format!("writer-{}-separator", if s.append_sep { "appends" } else { "omits" }) },
+                        if s.fail_mod > 0 { ":with-events-that-fail-to-format" } else { "" }
+                    )
+                };
                 r.violation(
-                    &format!("C10:e2e:record-mangled:writer-{}-separator", if s.append_sep { "appends" } else { "omits" }),
-                    &format!("file {} piece [{}, {}) {:?} is neither a complete record, empty, nor a truncated record at a logged cut ({} such pieces)", path, a, b, text, bad.len()),
+                    &sig,
+                    &format!("file {} piece [{}, {}) {:?} is neither (byte for byte) the record of a successfully formatted event, empty, nor a truncated record at a logged cut ({} such pieces)", path, a, b, text, bad.len()),
                     case(),
                 );
                 break;
@@ -257,6 +308,17 @@ fn run(r: &mut Report, seed: u64, idx: u64) {
         }
         stop.store(true, Ordering::SeqCst);
     });
+    // every scripted formatting failure is counted, and only those
+    let m = sample_metrics(&files);
+    let (want, got) = (failing.load(Ordering::SeqCst), metric(&m, "event_format_failed"));
+    r.observe("events-whose-formatting-failed-part-way", want);
+    if want != got {
+        r.violation(
+            &format!("C10:e2e:event_format_failed-miscounts:{}", if s.json { "default-json-writer" } else { "custom-writer" }),
+            &format!("{} events were scripted to fail while formatting, the event_format_failed metric says {}", want, got),
+            case(),
+        );
+    }
     let ops = fs.op_count() as u64;
     let hits = fs.lock().hits.len() as u64;
     r.observe("flushes-returned-true", flushes_true);
@@ -267,7 +329,7 @@ fn run(r: &mut Report, seed: u64, idx: u64) {
     r.observe("faults-hit", hits);
     r.observe("events-emitted", emitted.lock().unwrap().len() as u64);
     r.observe("format-failures", fmt_fail.load(Ordering::SeqCst));
-    if flushes_true >= 2 && (hits > 0 || s.second_emitter) {
+    if flushes_true >= 2 && (hits > 0 || s.second_emitter || s.fail_mod > 0) {
         r.nontrivial(&idx);
     }
     if idx < 2 {
@@ -284,7 +346,7 @@ fn main() {
         &prop,
         &args,
         "one evaluation = one end-to-end scenario (rounds of emits + blocking_flush through the real FileSet pipeline over the fault-injecting filesystem); \
-         non-trivial = distinct scenarios with at least two successful flushes and either a filesystem fault that was hit or a second emitter thread running concurrently",
+         non-trivial = distinct scenarios with at least two successful flushes and a filesystem fault that was hit, a second emitter thread running concurrently, or events whose formatting fails part-way interleaved with ordinary ones",
     );
     emit_batcher::verif::set_delay_divisor(2000);
     let seed = args.seed;
